@@ -41,6 +41,7 @@ func C02(r *core.Run) {
 	provRefs(r)
 	importNames(r)
 	topicNames(r)
+	rules.MemoKeys(r, []string{convRel, walkRel, "internal/j5s/protobuild", "internal/j5s/j5parse"}, "memo_sites")
 	// what is generated for one declared element does not depend on its neighbours
 	iterationIndependence(r, convRel, "*")
 	iterationIndependence(r, walkRel, "*")
